@@ -195,7 +195,7 @@ Proof.
     rewrite H1. split; [discriminate|]. intros q [<-|[<-|[]]]; cbn [nplaces xplace]; lia.
   - apply frag_call in Hf. destruct Hf as [_ Hf]. cbn [wired] in Hw. destruct Hw as [_ Hw].
     intros j Hj. rewrite ntrans_call in Hj. rewrite nplaces_call. cbn [xplace].
-    apply (pre_ok_block N body IH Hf (body_pos p0) (pa p0) (CbTF (pa p0) :: xcbs) Hw j Hj).
+    apply (pre_ok_block N body IH Hf (body_pos t p0) (pa p0) (CbTF (pa p0) :: xcbs) Hw j Hj).
   - pose proof (frag_par _ Hf) as [Hne Hfb]. cbn [wired] in Hw. destruct Hw as (H1 & _ & _ & Hw).
     intros j Hj. rewrite ntrans_par in Hj. rewrite nplaces_par. cbn [xplace].
     destruct (Nat.eq_dec j (pt p0)) as [->|Hnj].
@@ -242,14 +242,26 @@ Proof.
     pose proof (frag_while _ _ Hf) as HfB. cbn [wired] in Hw.
     destruct Hw as (W1 & _ & _ & W4 & _ & _ & W7 & _ & _ & WB).
     intros j Hj. rewrite ntrans_while in Hj. rewrite nplaces_while. cbn [xplace].
-    pose proof (xplace_range_b b HfB (cond_p p0)) as XB. cbn [cond_p pp] in XB.
+    pose proof (xplace_range_b b HfB (loop_p p0)) as XB. cbn [loop_p pp] in XB.
     destruct (Nat.eq_dec j (pt p0)) as [->|N0]; [|destruct (Nat.eq_dec j (pt p0 + 1)) as [->|N1];
       [|destruct (Nat.eq_dec j (pt p0 + 2)) as [->|N2]]].
     + rewrite W1. split; [discriminate|]. intros q [<-|[<-|[]]]; lia.
     + rewrite W4. split; [discriminate|]. intros q [<-|[<-|[]]]; lia.
     + rewrite W7. split; [discriminate|]. intros q [<-|[]]. lia.
-    + destruct (pre_ok_block N b IH HfB (cond_p p0) ctx [] WB j) as [Hne Hin]; [cbn [cond_p pt]; lia|].
-      split; [exact Hne|]. intros q Hq. destruct (Hin q Hq) as [Hr _]. cbn [cond_p pp] in Hr. lia.
+    + destruct (pre_ok_block N b IH HfB (loop_p p0) ctx [] WB j) as [Hne Hin]; [cbn [loop_p pt]; lia|].
+      split; [exact Hne|]. intros q Hq. destruct (Hin q Hq) as [Hr _]. cbn [loop_p pp] in Hr. lia.
+  - (* counting loop *)
+    pose proof (frag_count _ _ _ Hf) as HfB. cbn [wired] in Hw.
+    destruct Hw as (W1 & _ & _ & W4 & _ & _ & W7 & _ & _ & WB).
+    intros j Hj. rewrite ntrans_count in Hj. rewrite nplaces_count. cbn [xplace].
+    pose proof (xplace_range_b b HfB (loop_p p0)) as XB. cbn [loop_p pp] in XB.
+    destruct (Nat.eq_dec j (pt p0)) as [->|N0]; [|destruct (Nat.eq_dec j (pt p0 + 1)) as [->|N1];
+      [|destruct (Nat.eq_dec j (pt p0 + 2)) as [->|N2]]].
+    + rewrite W1. split; [discriminate|]. intros q [<-|[<-|[]]]; lia.
+    + rewrite W4. split; [discriminate|]. intros q [<-|[<-|[]]]; lia.
+    + rewrite W7. split; [discriminate|]. intros q [<-|[]]. lia.
+    + destruct (pre_ok_block N b IH HfB (loop_p p0) ctx [] WB j) as [Hne Hin]; [cbn [loop_p pt]; lia|].
+      split; [exact Hne|]. intros q Hq. destruct (Hin q Hq) as [Hr _]. cbn [loop_p pp] in Hr. lia.
 Qed.
 
 (* =========================================================================== *)
@@ -373,9 +385,9 @@ Qed.
 Fixpoint ml (st : rst) (s : xstmt) (p : pos) {struct st} : list nat :=
   match st, s with
   | RAwait _, XService _ _ _ => [pp p]
-  | RCall _ i st', XCall _ _ _ body =>
+  | RCall _ i st', XCall t _ _ body =>
     match nth_error body i with
-    | Some s' => ml st' s' (spos body (body_pos p) i)
+    | Some s' => ml st' s' (spos body (body_pos t p) i)
     | None => []
     end
   | RPar sts, XParallel bs =>
@@ -392,7 +404,12 @@ Fixpoint ml (st : rst) (s : xstmt) (p : pos) {struct st} : list nat :=
     end
   | RLoop _ i st', XWhile _ B =>
     match nth_error B i with
-    | Some s' => ml st' s' (spos B (cond_p p) i)
+    | Some s' => ml st' s' (spos B (loop_p p) i)
+    | None => []
+    end
+  | RLoop _ i st', XCount _ _ B =>
+    match nth_error B i with
+    | Some s' => ml st' s' (spos B (loop_p p) i)
     | None => []
     end
   | _, _ => []
@@ -410,7 +427,7 @@ Definition ml_block (body : list xstmt) (bp : pos) (i : nat) (st : rst) : list n
   match nth_error body i with Some s' => ml st s' (spos body bp i) | None => [] end.
 
 Lemma ml_call : forall cid i st t a ins body p,
-    ml (RCall cid i st) (XCall t a ins body) p = ml_block body (body_pos p) i st.
+    ml (RCall cid i st) (XCall t a ins body) p = ml_block body (body_pos t p) i st.
 Proof. reflexivity. Qed.
 Lemma ml_par : forall sts bs p, ml (RPar sts) (XParallel bs) p = ml_list sts bs (par_pos p).
 Proof.
@@ -423,7 +440,9 @@ Lemma ml_cond : forall (b : bool) i st e P F p,
     ml (RCond b i st) (XCond e P F) p = ml_block (if b then P else F) (if b then cond_p p else cond_f P p) i st.
 Proof. reflexivity. Qed.
 
-Lemma ml_loop : forall k i st e B p, ml (RLoop k i st) (XWhile e B) p = ml_block B (cond_p p) i st.
+Lemma ml_loop : forall k i st e B p, ml (RLoop k i st) (XWhile e B) p = ml_block B (loop_p p) i st.
+Proof. reflexivity. Qed.
+Lemma ml_count : forall k i st v l B p, ml (RLoop k i st) (XCount v l B) p = ml_block B (loop_p p) i st.
 Proof. reflexivity. Qed.
 
 Definition EvF (i : nat) : event := EvFinish (ITest i).
@@ -445,7 +464,7 @@ Section Act.
       (exists il, nth_error (ns_apis ns) (pa p) = Some (with_uuid (ITest cid) (call_api il t at_ ins ctx (pa p)))) /\
       is_done st' = false /\ (ns_trans N0 = ns_trans N0) /\
       match nth_error body i with
-      | Some s' => act st' s' (spos body (body_pos p) i) (pa p)
+      | Some s' => act st' s' (spos body (body_pos t p) i) (pa p)
       | None => False
       end
     | RPar sts, XParallel bs =>
@@ -465,7 +484,13 @@ Section Act.
     | RLoop _ i st', XWhile _ B =>
       is_done st' = false /\ (ns_trans N0 = ns_trans N0) /\
       match nth_error B i with
-      | Some s' => act st' s' (spos B (cond_p p) i) ctx
+      | Some s' => act st' s' (spos B (loop_p p) i) ctx
+      | None => False
+      end
+    | RLoop _ i st', XCount _ _ B =>
+      is_done st' = false /\ (ns_trans N0 = ns_trans N0) /\
+      match nth_error B i with
+      | Some s' => act st' s' (spos B (loop_p p) i) ctx
       | None => False
       end
     | RDone, _ => True
@@ -487,12 +512,15 @@ Section Act.
       = act_block (if b then P else F) (if b then cond_p p else cond_f P p) ctx i st.
   Proof. reflexivity. Qed.
   Lemma act_loop : forall k i st e B p ctx,
-      act (RLoop k i st) (XWhile e B) p ctx = act_block B (cond_p p) ctx i st.
+      act (RLoop k i st) (XWhile e B) p ctx = act_block B (loop_p p) ctx i st.
+  Proof. reflexivity. Qed.
+  Lemma act_count : forall k i st v l B p ctx,
+      act (RLoop k i st) (XCount v l B) p ctx = act_block B (loop_p p) ctx i st.
   Proof. reflexivity. Qed.
   Lemma act_call : forall cid i st t at_ ins body p ctx,
       act (RCall cid i st) (XCall t at_ ins body) p ctx
       = ((exists il, nth_error (ns_apis ns) (pa p) = Some (with_uuid (ITest cid) (call_api il t at_ ins ctx (pa p)))) /\
-         act_block body (body_pos p) (pa p) i st).
+         act_block body (body_pos t p) (pa p) i st).
   Proof. reflexivity. Qed.
 
   Lemma act_par : forall sts bs p ctx,
@@ -645,7 +673,7 @@ Proof.
   - destruct s as [| t at_ ins body | | | | | ]; cbn [act] in Ha; try contradiction.
     destruct Ha as (_ & _ & _ & Ha). rewrite ml_call in Hq.
     apply frag_call in Hf. destruct Hf as [_ Hfb].
-    destruct (ml_block_range_gen N0 ns st' body (body_pos p) (pa p) i q IH Hfb Ha Hq) as [R X].
+    destruct (ml_block_range_gen N0 ns st' body (body_pos t p) (pa p) i q IH Hfb Ha Hq) as [R X].
     unfold in_p. rewrite nplaces_call. cbn [xplace body_pos pp] in *. split; [lia|exact X].
   - destruct s as [| |bs| | | | ]; cbn [act] in Ha; try (destruct Ha; contradiction).
     apply act_par in Ha. destruct Ha as [_ Ha]. rewrite ml_par in Hq.
@@ -668,11 +696,15 @@ Proof.
     + destruct (ml_block_range_gen N0 ns st' P (cond_p p) ctx i q IH HfP Ha Hq) as [R X]. cbn [cond_p pp] in R. lia.
     + assert (HfF : frag_block F = true) by (apply (frag_cond_F _ _ _ Hf); intros ->; destruct i; exact Ha).
       destruct (ml_block_range_gen N0 ns st' F (cond_f P p) ctx i q IH HfF Ha Hq) as [R X]. cbn [cond_f pp] in R. lia.
-  - destruct s as [| | | |e B| | ]; cbn [act] in Ha; try contradiction.
-    destruct Ha as (_ & _ & Ha). rewrite ml_loop in Hq.
-    pose proof (frag_while _ _ Hf) as HfB.
-    unfold in_p. rewrite nplaces_while. cbn [xplace].
-    destruct (ml_block_range_gen N0 ns st' B (cond_p p) ctx i q IH HfB Ha Hq) as [R X]. cbn [cond_p pp] in R. lia.
+  - destruct s as [| | | |e B|cv cl B| ]; cbn [act] in Ha; try contradiction.
+    { destruct Ha as (_ & _ & Ha). rewrite ml_loop in Hq.
+      pose proof (frag_while _ _ Hf) as HfB.
+      unfold in_p. rewrite nplaces_while. cbn [xplace].
+      destruct (ml_block_range_gen N0 ns st' B (loop_p p) ctx i q IH HfB Ha Hq) as [R X]. cbn [loop_p pp] in R. lia. }
+    { destruct Ha as (_ & _ & Ha). rewrite ml_count in Hq.
+      pose proof (frag_count _ _ _ Hf) as HfB.
+      unfold in_p. rewrite nplaces_count. cbn [xplace].
+      destruct (ml_block_range_gen N0 ns st' B (loop_p p) ctx i q IH HfB Ha Hq) as [R X]. cbn [loop_p pp] in R. lia. }
   - destruct s; cbn [act] in Ha; contradiction.
 Qed.
 
@@ -744,7 +776,7 @@ Proof.
     destruct Ha as (_ & Hd' & _ & Ha).
     pose proof (frag_call _ _ _ _ Hf) as [_ Hfb]. cbn [wired] in Hw. destruct Hw as [_ Hw].
     unfold in_t in Hj. rewrite ntrans_call in Hj. rewrite ml_call.
-    destruct (stable_block_gen N0 ns N st' body (body_pos p) (pa p) (pa p) _ i IH Hfb Hw Hd' Ha j Hj) as (q & Q1 & Q2 & Q3).
+    destruct (stable_block_gen N0 ns N st' body (body_pos t p) (pa p) (pa p) _ i IH Hfb Hw Hd' Ha j Hj) as (q & Q1 & Q2 & Q3).
     exists q. split; [exact Q1|]. split; [|exact Q3]. unfold in_p, in_pb in *. rewrite nplaces_call. exact Q2.
   - (* parallel *)
     destruct s as [| |bs| | | | ]; cbn [act] in Ha; try (destruct Ha; contradiction).
@@ -873,29 +905,49 @@ Proof.
            intro Hi. apply Hmlr in Hi. lia.
         -- destruct (stable_block_gen N0 ns N st' F (cond_f P p) ctx ctx' [] i IH HfF WF Hd' Ha j HjF) as (q & Q1 & Q2 & Q3).
            exists q. split; [exact Q1|]. split; [unfold in_pb in Q2; cbn [cond_f pp] in Q2; lia|exact Q3].
-  - (* while loop: the body is active *)
-    destruct s as [| | | |e B| | ]; cbn [act] in Ha; try contradiction.
-    destruct Ha as (Hd' & _ & Ha).
-    pose proof (frag_while _ _ Hf) as HfB. cbn [wired] in Hw.
-    destruct Hw as (W1 & _ & _ & W4 & _ & _ & W7 & _ & _ & WB).
-    unfold in_t in Hj. rewrite ntrans_while in Hj. rewrite ml_loop.
-    pose proof (xplace_range_b B HfB (cond_p p)) as XB. cbn [cond_p pp] in XB.
-    assert (Hmlr : forall q, In q (ml_block B (cond_p p) i st') ->
-                             pp p + 4 <= q < pp p + 4 + nplaces_l B /\ q <> xplace_b B (cond_p p)).
-    { intros q Hq. destruct (ml_block_range_gen N0 ns st' B (cond_p p) ctx' i q (ml_range N0 ns st') HfB Ha Hq) as [R X].
-      cbn [cond_p pp] in R. split; assumption. }
-    unfold in_p. rewrite nplaces_while.
-    destruct (Nat.eq_dec j (pt p)) as [->|N0']; [|destruct (Nat.eq_dec j (pt p + 1)) as [->|N1];
-      [|destruct (Nat.eq_dec j (pt p + 2)) as [->|N2]]].
-    + exists (pp p). rewrite W1. split; [left; reflexivity|]. split; [lia|].
-      intro Hi. apply Hmlr in Hi. lia.
-    + exists (pp p). rewrite W4. split; [left; reflexivity|]. split; [lia|].
-      intro Hi. apply Hmlr in Hi. lia.
-    + exists (xplace_b B (cond_p p)). rewrite W7. split; [left; reflexivity|]. split; [lia|].
-      intro Hi. apply Hmlr in Hi. destruct Hi as [_ Hi]. congruence.
-    + assert (HjB : in_tb B (cond_p p) j) by (unfold in_tb; cbn [cond_p pt]; lia).
-      destruct (stable_block_gen N0 ns N st' B (cond_p p) ctx ctx' [] i IH HfB WB Hd' Ha j HjB) as (q & Q1 & Q2 & Q3).
-      exists q. split; [exact Q1|]. split; [unfold in_pb in Q2; cbn [cond_p pp] in Q2; lia|exact Q3].
+  - destruct s as [| | | |e B|cv cl B| ]; cbn [act] in Ha; try contradiction.
+    { destruct Ha as (Hd' & _ & Ha).
+      pose proof (frag_while _ _ Hf) as HfB. cbn [wired] in Hw.
+      destruct Hw as (W1 & _ & _ & W4 & _ & _ & W7 & _ & _ & WB).
+      unfold in_t in Hj. rewrite ntrans_while in Hj. rewrite ml_loop.
+      pose proof (xplace_range_b B HfB (loop_p p)) as XB. cbn [loop_p pp] in XB.
+      assert (Hmlr : forall q, In q (ml_block B (loop_p p) i st') ->
+                               pp p + 4 <= q < pp p + 4 + nplaces_l B /\ q <> xplace_b B (loop_p p)).
+      { intros q Hq. destruct (ml_block_range_gen N0 ns st' B (loop_p p) ctx' i q (ml_range N0 ns st') HfB Ha Hq) as [R X].
+        cbn [loop_p pp] in R. split; assumption. }
+      unfold in_p. rewrite nplaces_while.
+      destruct (Nat.eq_dec j (pt p)) as [->|N0']; [|destruct (Nat.eq_dec j (pt p + 1)) as [->|N1];
+        [|destruct (Nat.eq_dec j (pt p + 2)) as [->|N2]]].
+      + exists (pp p). rewrite W1. split; [left; reflexivity|]. split; [lia|].
+        intro Hi. apply Hmlr in Hi. lia.
+      + exists (pp p). rewrite W4. split; [left; reflexivity|]. split; [lia|].
+        intro Hi. apply Hmlr in Hi. lia.
+      + exists (xplace_b B (loop_p p)). rewrite W7. split; [left; reflexivity|]. split; [lia|].
+        intro Hi. apply Hmlr in Hi. destruct Hi as [_ Hi]. congruence.
+      + assert (HjB : in_tb B (loop_p p) j) by (unfold in_tb; cbn [loop_p pt]; lia).
+        destruct (stable_block_gen N0 ns N st' B (loop_p p) ctx ctx' [] i IH HfB WB Hd' Ha j HjB) as (q & Q1 & Q2 & Q3).
+        exists q. split; [exact Q1|]. split; [unfold in_pb in Q2; cbn [loop_p pp] in Q2; lia|exact Q3]. }
+    { destruct Ha as (Hd' & _ & Ha).
+      pose proof (frag_count _ _ _ Hf) as HfB. cbn [wired] in Hw.
+      destruct Hw as (W1 & _ & _ & W4 & _ & _ & W7 & _ & _ & WB).
+      unfold in_t in Hj. rewrite ntrans_count in Hj. rewrite ml_count.
+      pose proof (xplace_range_b B HfB (loop_p p)) as XB. cbn [loop_p pp] in XB.
+      assert (Hmlr : forall q, In q (ml_block B (loop_p p) i st') ->
+                               pp p + 4 <= q < pp p + 4 + nplaces_l B /\ q <> xplace_b B (loop_p p)).
+      { intros q Hq. destruct (ml_block_range_gen N0 ns st' B (loop_p p) ctx' i q (ml_range N0 ns st') HfB Ha Hq) as [R X].
+        cbn [loop_p pp] in R. split; assumption. }
+      unfold in_p. rewrite nplaces_count.
+      destruct (Nat.eq_dec j (pt p)) as [->|N0']; [|destruct (Nat.eq_dec j (pt p + 1)) as [->|N1];
+        [|destruct (Nat.eq_dec j (pt p + 2)) as [->|N2]]].
+      + exists (pp p). rewrite W1. split; [left; reflexivity|]. split; [lia|].
+        intro Hi. apply Hmlr in Hi. lia.
+      + exists (pp p). rewrite W4. split; [left; reflexivity|]. split; [lia|].
+        intro Hi. apply Hmlr in Hi. lia.
+      + exists (xplace_b B (loop_p p)). rewrite W7. split; [left; reflexivity|]. split; [lia|].
+        intro Hi. apply Hmlr in Hi. destruct Hi as [_ Hi]. congruence.
+      + assert (HjB : in_tb B (loop_p p) j) by (unfold in_tb; cbn [loop_p pt]; lia).
+        destruct (stable_block_gen N0 ns N st' B (loop_p p) ctx ctx' [] i IH HfB WB Hd' Ha j HjB) as (q & Q1 & Q2 & Q3).
+        exists q. split; [exact Q1|]. split; [unfold in_pb in Q2; cbn [loop_p pp] in Q2; lia|exact Q3]. }
   - destruct s; cbn [act] in Ha; contradiction.
 Qed.
 
@@ -931,7 +983,7 @@ Proof.
     destruct (nth_error body i) as [s'|] eqn:En; [|contradiction].
     pose proof (frag_call _ _ _ _ Hf) as [_ Hfb]. pose proof (frag_block_nth _ _ _ Hfb En) as Hfs.
     apply IH; try assumption. intros k0 Hk0. apply Hap.
-    pose proof (spos_range body (body_pos p) i s' En) as R. cbn [body_pos pa] in R. lia.
+    pose proof (spos_range body (body_pos t p) i s' En) as R. cbn [body_pos pa] in R. lia.
   - destruct s as [| |bs| | | | ]; cbn [act] in Ha; try (destruct Ha; contradiction).
     apply act_par in Ha. apply act_par. destruct Ha as [A1 A2]. split; [exact A1|].
     pose proof (frag_par _ Hf) as [_ Hfb]. rewrite napis_par in Hap.
@@ -965,13 +1017,19 @@ Proof.
     { destruct b; [apply (frag_block_nth _ _ _ HfP En)|].
       apply (frag_block_nth F i s'); [|exact En]. apply (frag_cond_F _ _ _ Hf). intros ->. destruct i; discriminate En. }
     apply IH; try assumption. intros k0 Hk0. apply Hap. pose proof (Hrng i s' En). lia.
-  - destruct s as [| | | |e B| | ]; cbn [act] in *; try contradiction.
-    destruct Ha as (A2 & A2' & A3). rewrite napis_while in Hap.
-    pose proof (frag_while _ _ Hf) as HfB.
-    split; [exact A2|]. split; [reflexivity|].
-    destruct (nth_error B i) as [s'|] eqn:En; [|contradiction].
-    apply IH; try assumption; [apply (frag_block_nth _ _ _ HfB En)|].
-    intros k0 Hk0. apply Hap. pose proof (spos_range B (cond_p p) i s' En) as R. cbn [cond_p pa] in R. lia.
+  - destruct s as [| | | |e B|cv cl B| ]; cbn [act] in *; try contradiction.
+    { destruct Ha as (A2 & A2' & A3). rewrite napis_while in Hap.
+      pose proof (frag_while _ _ Hf) as HfB.
+      split; [exact A2|]. split; [reflexivity|].
+      destruct (nth_error B i) as [s'|] eqn:En; [|contradiction].
+      apply IH; try assumption; [apply (frag_block_nth _ _ _ HfB En)|].
+      intros k0 Hk0. apply Hap. pose proof (spos_range B (loop_p p) i s' En) as R. cbn [loop_p pa] in R. lia. }
+    { destruct Ha as (A2 & A2' & A3). rewrite napis_count in Hap.
+      pose proof (frag_count _ _ _ Hf) as HfB.
+      split; [exact A2|]. split; [reflexivity|].
+      destruct (nth_error B i) as [s'|] eqn:En; [|contradiction].
+      apply IH; try assumption; [apply (frag_block_nth _ _ _ HfB En)|].
+      intros k0 Hk0. apply Hap. pose proof (spos_range B (loop_p p) i s' En) as R. cbn [loop_p pa] in R. lia. }
   - destruct s; cbn [act] in Ha; contradiction.
 Qed.
 
@@ -979,16 +1037,16 @@ Lemma startcbs_b_nth0 : forall l p ctx s, nth_error l 0 = Some s -> startcbs_b l
 Proof. intros [|x r] p ctx s H; inversion H; subst. reflexivity. Qed.
 Lemma entries_b_nth0 : forall l p s, nth_error l 0 = Some s -> entries_b l p = entries s (spos l p 0).
 Proof. intros [|x r] p s H; inversion H; subst. reflexivity. Qed.
-Lemma startcbs_call : forall t a i bd p ctx, startcbs (XCall t a i bd) p ctx = CbTS (pa p) :: startcbs_b bd (body_pos p) (pa p).
+Lemma startcbs_call : forall t a i bd p ctx, startcbs (XCall t a i bd) p ctx = CbTS (pa p) :: startcbs_b bd (body_pos t p) (pa p).
 Proof. reflexivity. Qed.
-Lemma entries_call : forall t a i bd p, entries (XCall t a i bd) p = entries_b bd (body_pos p).
+Lemma entries_call : forall t a i bd p, entries (XCall t a i bd) p = entries_b bd (body_pos t p).
 Proof. reflexivity. Qed.
 
 (* ---- the exit transition of a component: its callbacks and its output place ---- *)
 Fixpoint own (s : xstmt) (p : pos) : list cb :=
   match s with
   | XService _ _ _ => [CbSF (pa p)]
-  | XCall _ _ _ bd => last_of own [] bd (body_pos p) ++ [CbTF (pa p)]
+  | XCall t _ _ bd => last_of own [] bd (body_pos t p) ++ [CbTF (pa p)]
   | _ => []
   end.
 Definition own_b := last_of own [].
@@ -1015,7 +1073,7 @@ Proof.
   - cbn [wired] in Hw. destruct Hw as (_ & H2 & H3 & _). cbn [exits] in He. destruct He as [<-|[]].
     cbn [own xplace app]. split; assumption.
   - apply frag_call in Hf. destruct Hf as [_ Hf]. cbn [wired] in Hw. destruct Hw as [_ Hw]. cbn [exits] in He.
-    destruct (exit_facts_block N bd IH Hf (body_pos p0) (pa p0) (CbTF (pa p0) :: xcbs) Hw e He) as [E1 E2].
+    destruct (exit_facts_block N bd IH Hf (body_pos t p0) (pa p0) (CbTF (pa p0) :: xcbs) Hw e He) as [E1 E2].
     cbn [own xplace]. split; [|exact E2]. rewrite E1. unfold own_b. rewrite <- app_assoc. reflexivity.
   - cbn [wired] in Hw. destruct Hw as (_ & H2 & H3 & _). cbn [exits] in He. destruct He as [<-|[]].
     cbn [own xplace app]. split; assumption.
@@ -1025,6 +1083,8 @@ Proof.
     cbn [wired] in Hw. destruct Hw as (_ & _ & _ & _ & _ & _ & _ & W8 & W9 & _ & W11 & W12 & _).
     cbn [exits] in He. fold (ntrans_b P) in He. cbn [own xplace app].
     destruct He as [<-|[<-|[]]]; [split; assumption|]. unfold cond_sf in W11, W12. split; assumption.
+  - cbn [wired] in Hw. destruct Hw as (_ & _ & _ & _ & W5 & W6 & _).
+    cbn [exits] in He. cbn [own xplace app]. destruct He as [<-|[]]. split; assumption.
   - cbn [wired] in Hw. destruct Hw as (_ & _ & _ & _ & W5 & W6 & _).
     cbn [exits] in He. cbn [own xplace app]. destruct He as [<-|[]]. split; assumption.
 Qed.
@@ -1037,8 +1097,8 @@ Proof.
   induction s as [n a i|t a i bd IH|bs IH|e0 p f IHp IHf|e0 b IH|v l b IH|v l c IH] using xstmt_ind';
     intros p0 ctx; try reflexivity.
   - cbn [startcbs]. destruct bd as [|s0 r]; [reflexivity|]. inversion IH as [|? ? H0 _]; subst.
-    change (no_parloop (CbTS (pa p0) :: startcbs s0 (first_pos (s0 :: r) (body_pos p0)) (pa p0))) with
-        (no_parloop (startcbs s0 (first_pos (s0 :: r) (body_pos p0)) (pa p0))). apply H0.
+    change (no_parloop (CbTS (pa p0) :: startcbs s0 (first_pos (s0 :: r) (body_pos t p0)) (pa p0))) with
+        (no_parloop (startcbs s0 (first_pos (s0 :: r) (body_pos t p0)) (pa p0))). apply H0.
   - cbn [startcbs]. generalize (par_pos p0). induction bs as [|b r IHr]; intro q; [reflexivity|].
     inversion IH as [|? ? Hb Hr]; subst. cbn [cat_of]. rewrite no_parloop_app, Hb. apply IHr. exact Hr.
 Qed.
@@ -1047,7 +1107,7 @@ Lemma no_parloop_own : forall s p, no_parloop (own s p) = true.
 Proof.
   induction s as [n a i|t a i bd IH|bs IH|e0 p f IHp IHf|e0 b IH|v l b IH|v l c IH] using xstmt_ind';
     intros p0; try reflexivity.
-  cbn [own]. rewrite no_parloop_app. cbn. rewrite andb_true_r. generalize (body_pos p0).
+  cbn [own]. rewrite no_parloop_app. cbn. rewrite andb_true_r. generalize (body_pos t p0).
   induction bd as [|s0 r IHr]; intro q; [reflexivity|]. inversion IH as [|? ? H0 Hr]; subst.
   destruct r as [|s1 r]; [rewrite last_of_one; apply H0|]. rewrite last_of_cons. apply IHr. exact Hr.
 Qed.
@@ -1162,7 +1222,7 @@ Proof.
     destruct Ha as (_ & _ & _ & Ha). destruct (nth_error body i) as [s'|] eqn:En; [|contradiction].
     pose proof (frag_call _ _ _ _ Hf) as [_ Hfb]. pose proof (frag_block_nth _ _ _ Hfb En) as Hfs.
     cbn [svc_ids] in Hin. destruct (IH s' _ _ id Hfs Ha Hin) as (fp & Hd & Hr). exists fp. split; [exact Hd|].
-    pose proof (spos_range body (body_pos p) i s' En) as R. cbn [body_pos pp] in R.
+    pose proof (spos_range body (body_pos t p) i s' En) as R. cbn [body_pos pp] in R.
     unfold in_p in *. rewrite nplaces_call. lia.
   - destruct s as [| |bs| | | | ]; cbn [act] in Ha; try (destruct Ha; contradiction).
     apply act_par in Ha. destruct Ha as [_ Ha]. pose proof (frag_par _ Hf) as [_ Hfb].
@@ -1185,12 +1245,17 @@ Proof.
     unfold in_p in *. rewrite nplaces_cond. destruct b.
     + pose proof (spos_range P (cond_p p) i s' En) as R. cbn [cond_p pp] in R. lia.
     + pose proof (spos_range F (cond_f P p) i s' En) as R. cbn [cond_f pp] in R. lia.
-  - destruct s as [| | | |e B| | ]; cbn [act] in Ha; try contradiction.
-    destruct Ha as (_ & _ & Ha). destruct (nth_error B i) as [s'|] eqn:En; [|contradiction].
-    pose proof (frag_while _ _ Hf) as HfB.
-    cbn [svc_ids] in Hin. destruct (IH s' _ _ id (frag_block_nth _ _ _ HfB En) Ha Hin) as (fp & Hd & Hr).
-    exists fp. split; [exact Hd|].
-    unfold in_p in *. rewrite nplaces_while. pose proof (spos_range B (cond_p p) i s' En) as R. cbn [cond_p pp] in R. lia.
+  - destruct s as [| | | |e B|cv cl B| ]; cbn [act] in Ha; try contradiction.
+    { destruct Ha as (_ & _ & Ha). destruct (nth_error B i) as [s'|] eqn:En; [|contradiction].
+      pose proof (frag_while _ _ Hf) as HfB.
+      cbn [svc_ids] in Hin. destruct (IH s' _ _ id (frag_block_nth _ _ _ HfB En) Ha Hin) as (fp & Hd & Hr).
+      exists fp. split; [exact Hd|].
+      unfold in_p in *. rewrite nplaces_while. pose proof (spos_range B (loop_p p) i s' En) as R. cbn [loop_p pp] in R. lia. }
+    { destruct Ha as (_ & _ & Ha). destruct (nth_error B i) as [s'|] eqn:En; [|contradiction].
+      pose proof (frag_count _ _ _ Hf) as HfB.
+      cbn [svc_ids] in Hin. destruct (IH s' _ _ id (frag_block_nth _ _ _ HfB En) Ha Hin) as (fp & Hd & Hr).
+      exists fp. split; [exact Hd|].
+      unfold in_p in *. rewrite nplaces_count. pose proof (spos_range B (loop_p p) i s' En) as R. cbn [loop_p pp] in R. lia. }
   - destruct s; cbn [act] in Ha; contradiction.
 Qed.
 
@@ -1321,7 +1386,7 @@ Proof.
     intros Hf p q Hq; try discriminate Hf.
   - cbn [entries] in Hq. destruct Hq as [<-|[]]. unfold in_p. cbn [nplaces xplace]. lia.
   - apply frag_call in Hf. destruct Hf as [_ Hf]. rewrite entries_call in Hq.
-    destruct (entries_range_block bd IH Hf (body_pos p) q Hq) as (A & B & _).
+    destruct (entries_range_block bd IH Hf (body_pos t p) q Hq) as (A & B & _).
     unfold in_p, in_pb in *. rewrite nplaces_call. cbn [xplace body_pos pp] in *. split; assumption.
   - pose proof (frag_par _ Hf) as [_ Hfb]. cbn [entries] in Hq. apply in_cat_of in Hq. destruct Hq as (k & b & Hb & Hq).
     destruct (frag_brs_nth _ _ _ Hfb Hb) as [Hfbk _]. rewrite Forall_forall in IH.
@@ -1330,6 +1395,7 @@ Proof.
     unfold in_p in *. rewrite nplaces_par. cbn [xplace]. lia.
   - cbn [entries] in Hq. destruct Hq as [<-|[]]. unfold in_p. rewrite nplaces_cond. cbn [xplace]. lia.
   - cbn [entries] in Hq. destruct Hq as [<-|[]]. unfold in_p. rewrite nplaces_while. cbn [xplace]. lia.
+  - cbn [entries] in Hq. destruct Hq as [<-|[]]. unfold in_p. rewrite nplaces_count. cbn [xplace]. lia.
 Qed.
 
 Lemma entries_range_b : forall l, frag_block l = true -> forall p q, In q (entries_b l p) ->
@@ -1382,7 +1448,7 @@ Proof.
     cbn [entries]. intros [E|[]]. lia.
   - pose proof (frag_call _ _ _ _ Hf) as [_ Hfb]. cbn [wired] in Hw. destruct Hw as [_ Hw].
     unfold in_t in Hj. rewrite ntrans_call in Hj. rewrite entries_call.
-    destruct (entered_blocked_block N bd IH Hfb (body_pos p) (pa p) _ Hw j Hj) as (q & Q1 & Q2 & Q3).
+    destruct (entered_blocked_block N bd IH Hfb (body_pos t p) (pa p) _ Hw j Hj) as (q & Q1 & Q2 & Q3).
     exists q. split; [exact Q1|]. split; [|exact Q3]. unfold in_p, in_pb in *. rewrite nplaces_call. exact Q2.
   - pose proof (frag_par _ Hf) as [Hne Hfb]. cbn [wired] in Hw. destruct Hw as (H1 & _ & _ & Hw).
     unfold in_t in Hj. rewrite ntrans_par in Hj. cbn [entries]. set (q0 := par_pos p) in *.
@@ -1443,14 +1509,26 @@ Proof.
     pose proof (frag_while _ _ Hf) as HfB. cbn [wired] in Hw.
     destruct Hw as (W1 & _ & _ & W4 & _ & _ & W7 & _ & _ & WB).
     unfold in_t in Hj. rewrite ntrans_while in Hj. unfold in_p. rewrite nplaces_while. cbn [entries].
-    pose proof (xplace_range_b b HfB (cond_p p)) as XB. cbn [cond_p pp] in XB.
+    pose proof (xplace_range_b b HfB (loop_p p)) as XB. cbn [loop_p pp] in XB.
     destruct (Nat.eq_dec j (pt p)) as [->|N0']; [|destruct (Nat.eq_dec j (pt p + 1)) as [->|N1];
       [|destruct (Nat.eq_dec j (pt p + 2)) as [->|N2]]].
     + exists (pp p + 1). rewrite W1. split; [right; left; reflexivity|]. split; [lia|]. intros [E|[]]. lia.
     + exists (pp p + 2). rewrite W4. split; [right; left; reflexivity|]. split; [lia|]. intros [E|[]]. lia.
-    + exists (xplace_b b (cond_p p)). rewrite W7. split; [left; reflexivity|]. split; [lia|]. intros [E|[]]. lia.
-    + destruct (exit_blocked_block N b (cond_p p) ctx [] HfB WB j) as (q & Q1 & Q2 & _); [unfold in_tb; cbn [cond_p pt]; lia|].
-      exists q. split; [exact Q1|]. unfold in_pb in Q2. cbn [cond_p pp] in Q2. split; [lia|]. intros [E|[]]. lia.
+    + exists (xplace_b b (loop_p p)). rewrite W7. split; [left; reflexivity|]. split; [lia|]. intros [E|[]]. lia.
+    + destruct (exit_blocked_block N b (loop_p p) ctx [] HfB WB j) as (q & Q1 & Q2 & _); [unfold in_tb; cbn [loop_p pt]; lia|].
+      exists q. split; [exact Q1|]. unfold in_pb in Q2. cbn [loop_p pp] in Q2. split; [lia|]. intros [E|[]]. lia.
+  - (* counting loop *)
+    pose proof (frag_count _ _ _ Hf) as HfB. cbn [wired] in Hw.
+    destruct Hw as (W1 & _ & _ & W4 & _ & _ & W7 & _ & _ & WB).
+    unfold in_t in Hj. rewrite ntrans_count in Hj. unfold in_p. rewrite nplaces_count. cbn [entries].
+    pose proof (xplace_range_b b HfB (loop_p p)) as XB. cbn [loop_p pp] in XB.
+    destruct (Nat.eq_dec j (pt p)) as [->|N0']; [|destruct (Nat.eq_dec j (pt p + 1)) as [->|N1];
+      [|destruct (Nat.eq_dec j (pt p + 2)) as [->|N2]]].
+    + exists (pp p + 1). rewrite W1. split; [right; left; reflexivity|]. split; [lia|]. intros [E|[]]. lia.
+    + exists (pp p + 2). rewrite W4. split; [right; left; reflexivity|]. split; [lia|]. intros [E|[]]. lia.
+    + exists (xplace_b b (loop_p p)). rewrite W7. split; [left; reflexivity|]. split; [lia|]. intros [E|[]]. lia.
+    + destruct (exit_blocked_block N b (loop_p p) ctx [] HfB WB j) as (q & Q1 & Q2 & _); [unfold in_tb; cbn [loop_p pt]; lia|].
+      exists q. split; [exact Q1|]. unfold in_pb in Q2. cbn [loop_p pp] in Q2. split; [lia|]. intros [E|[]]. lia.
 Qed.
 
 Lemma cnt_cat_entries_at : forall bs q k b x,
@@ -1484,3 +1562,121 @@ Proof. intros st b q H. destruct st; try reflexivity. discriminate H. Qed.
 
 Lemma in_ids_nd : forall st id, In id (svc_ids st) -> is_done st = false.
 Proof. intros st id H. destruct st; try reflexivity. contradiction. Qed.
+
+(* =========================================================================== *)
+(* counting loops: the loop counters of the production task                     *)
+(* =========================================================================== *)
+(* the counters dict of a task instance: one entry per running counting loop, outermost first *)
+Definition enc (kl : list (site * nat)) : list (lkey * cval) :=
+  map (fun kk => (KLoop (fst kk), CInt (snd kk))) kl.
+(* [kl] = the running counting loops of the production task, innermost first *)
+Definition C0 (ns : NS) (kl : list (site * nat)) : Prop := counters_of (ITest 0) ns = enc (rev kl).
+
+(* the chain of running counting loops (of the same task instance) down the active path *)
+Fixpoint rch (st : rst) (s : xstmt) (p : pos) (kl : list (site * nat)) {struct st} : list (site * nat) :=
+  match st, s with
+  | RCond b i st', XCond _ P F =>
+    match nth_error (if b then P else F) i with
+    | Some s' => rch st' s' (spos (if b then P else F) (if b then cond_p p else cond_f P p) i) kl
+    | None => kl
+    end
+  | RLoop _ i st', XWhile _ B =>
+    match nth_error B i with
+    | Some s' => rch st' s' (spos B (loop_p p) i) kl
+    | None => kl
+    end
+  | RLoop k i st', XCount _ _ B =>
+    match nth_error B i with
+    | Some s' => rch st' s' (spos B (loop_p p) i) ((pkey p, k) :: kl)
+    | None => (pkey p, k) :: kl
+    end
+  | _, _ => kl
+  end.
+Definition rch_block (l : list xstmt) (bp : pos) (i : nat) (st : rst) (kl : list (site * nat)) : list (site * nat) :=
+  match nth_error l i with Some s' => rch st s' (spos l bp i) kl | None => kl end.
+Definition rchb (l : list xstmt) (bp : pos) (r : option (nat * rst)) (kl : list (site * nat)) : list (site * nat) :=
+  match r with None => kl | Some (j, st) => rch_block l bp j st kl end.
+
+Lemma rch_done : forall s p kl, rch RDone s p kl = kl. Proof. reflexivity. Qed.
+Lemma rch_cond : forall (b : bool) i st e P F p kl,
+    rch (RCond b i st) (XCond e P F) p kl = rch_block (if b then P else F) (if b then cond_p p else cond_f P p) i st kl.
+Proof. reflexivity. Qed.
+Lemma rch_loop : forall k i st e B p kl, rch (RLoop k i st) (XWhile e B) p kl = rch_block B (loop_p p) i st kl.
+Proof. reflexivity. Qed.
+Lemma rch_count : forall k i st v l B p kl,
+    rch (RLoop k i st) (XCount v l B) p kl = rch_block B (loop_p p) i st ((pkey p, k) :: kl).
+Proof. reflexivity. Qed.
+Lemma rch_call : forall cid i st t a ins body p kl, rch (RCall cid i st) (XCall t a ins body) p kl = kl.
+Proof. reflexivity. Qed.
+Lemma rch_par : forall sts bs p kl, rch (RPar sts) (XParallel bs) p kl = kl.
+Proof. reflexivity. Qed.
+Lemma rch_await : forall id s p kl, rch (RAwait id) s p kl = kl.
+Proof. intros. destruct s; reflexivity. Qed.
+
+(* where counting loops may stand ([rt] = in the production task itself) and which parameters
+   may mention loop indices ([NC] = the program has no counting loop) *)
+Fixpoint sok (NC rt : bool) (s : xstmt) : bool :=
+  match s with
+  | XService _ _ ins => NC || idxfree ins
+  | XCall _ _ ins body => (NC || idxfree ins) && forallb (sok NC false) body
+  | XParallel bs => forallb (sok NC rt) bs
+  | XCond _ P F => forallb (sok NC rt) P && forallb (sok NC rt) F
+  | XWhile _ B => forallb (sok NC rt) B
+  | XCount _ _ B => negb NC && rt && forallb (sok NC rt) B
+  | XParLoop _ _ _ => false
+  end.
+Definition sok_block (NC rt : bool) (l : list xstmt) : bool := forallb (sok NC rt) l.
+
+Lemma sok_block_nth : forall NC rt l i s, sok_block NC rt l = true -> nth_error l i = Some s -> sok NC rt s = true.
+Proof.
+  intros NC rt l i s H Hn. unfold sok_block in H. rewrite forallb_forall in H. apply H. eapply nth_error_In. exact Hn.
+Qed.
+
+Lemma rch_nocount : forall NC st s p kl, sok NC false s = true -> rch st s p kl = kl.
+Proof.
+  intros NC. induction st as [|id|cid i st' IH|sts IH|b i st' IH|k i st' IH|sts IH] using rst_ind';
+    intros s p kl H; try (destruct s; reflexivity).
+  - destruct s as [| | |e P F| | | ]; try reflexivity. cbn [rch].
+    destruct (nth_error (if b then P else F) i) as [s'|] eqn:En; [|reflexivity].
+    apply IH. cbn [sok] in H. apply andb_prop in H. destruct H as [HP HF].
+    destruct b; [apply (sok_block_nth NC false P i s' HP En)|apply (sok_block_nth NC false F i s' HF En)].
+  - destruct s as [| | | |e B|v l B| ]; try reflexivity; cbn [rch].
+    + destruct (nth_error B i) as [s'|] eqn:En; [|reflexivity].
+      apply IH. cbn [sok] in H. apply (sok_block_nth NC false B i s' H En).
+    + cbn [sok] in H. rewrite andb_false_r in H. discriminate H.
+Qed.
+
+(* the keys of the running loops are sites above the position: a loop that starts has a new key *)
+Definition klb (kl : list (site * nat)) (p : pos) : Prop :=
+  forall key k, In (key, k) kl -> List.length (st_path key) <= List.length (s_pre (psi p)).
+
+Lemma psi_first_pos : forall l p, s_pre (psi (first_pos l p)) = s_pre (psi p) /\ s_tn (psi (first_pos l p)) = s_tn (psi p).
+Proof. intros l p. unfold first_pos. destruct l as [|s [|s' r]]; split; reflexivity. Qed.
+
+Lemma psi_spos : forall l p i, s_pre (psi (spos l p i)) = s_pre (psi p) /\ s_tn (psi (spos l p i)) = s_tn (psi p).
+Proof.
+  induction l as [|s r IH]; intros p i; [destruct i; split; reflexivity|].
+  destruct i as [|i]; cbn [spos].
+  - apply psi_first_pos.
+  - destruct (IH (adv s (first_pos (s :: r) p)) i) as [E1 E2]. rewrite E1, E2.
+    destruct (psi_first_pos (s :: r) p) as [F1 F2]. cbn [adv psi si_next s_pre s_tn]. split; assumption.
+Qed.
+
+Lemma klb_spos : forall kl l p i, klb kl p -> klb kl (spos l p i).
+Proof. intros kl l p i H key k Hin. rewrite (proj1 (psi_spos l p i)). apply (H key k Hin). Qed.
+
+Lemma klb_sub : forall kl p q, List.length (s_pre (psi p)) <= List.length (s_pre (psi q)) -> klb kl p -> klb kl q.
+Proof. intros kl p q Hle H key k Hin. specialize (H key k Hin). lia. Qed.
+
+Lemma klb_push : forall kl p k, klb kl p -> klb ((pkey p, k) :: kl) (loop_p p).
+Proof.
+  intros kl p k H key k0 [E|Hin].
+  - inversion E; subst. unfold pkey, loop_p, si_sub, s_path. cbn [st_path psi s_pre]. rewrite app_length. cbn. lia.
+  - specialize (H key k0 Hin). unfold loop_p, si_sub, s_path. cbn [psi s_pre]. rewrite app_length. cbn. lia.
+Qed.
+
+Lemma klb_fresh : forall kl p, klb kl p -> forall k, ~ In (pkey p, k) kl.
+Proof.
+  intros kl p H k Hin. specialize (H _ _ Hin). unfold pkey, s_path in H. cbn [st_path] in H.
+  rewrite app_length in H. cbn in H. lia.
+Qed.
